@@ -87,7 +87,7 @@ theorem any_proj (q : List QEntry) (id : Nat) :
   rw [List.any_map]; rfl
 
 /-- `q2Wait` is `Fifo.register` -/
-theorem sim_register (q : List QEntry) (pg : Option Fifo.Entry) (p : Pub) :
+theorem sim_register (q : List QEntry) (pg : List Fifo.Entry) (p : Pub) :
     Fifo.register ⟨q.map (proj enc ackb), pg⟩ ⟨Fifo.PUBLISH, 0, p.pktid, enc p, [], 0⟩ =
       ⟨(q2Wait q p).map (proj enc ackb), pg⟩ := by
   unfold Fifo.register q2Wait
@@ -97,7 +97,7 @@ theorem sim_register (q : List QEntry) (pg : Option Fifo.Entry) (p : Pub) :
   · simp [proj, Fifo.PUBREL]
 
 /-- `q2Ack` is `Fifo.ackId` with a PUBREL -/
-theorem sim_ackId (q : List QEntry) (pg : Option Fifo.Entry) (id : Nat) :
+theorem sim_ackId (q : List QEntry) (pg : List Fifo.Entry) (id : Nat) :
     Fifo.ackId ⟨q.map (proj enc ackb), pg⟩ Fifo.PUBREL id (ackb id) =
       ⟨(q2Ack q id).map (proj enc ackb), pg⟩ := by
   unfold Fifo.ackId q2Ack
@@ -115,7 +115,7 @@ theorem terminal_state {e : QEntry} (h : e.state = 0 ∨ e.state = tPUBREL) :
   rcases h with h | h <;> rw [h] <;> decide
 
 /-- `q2Acked` is `Fifo.collect` -/
-theorem sim_collect (q : List QEntry) (hq : States q) (pg : Option Fifo.Entry) :
+theorem sim_collect (q : List QEntry) (hq : States q) (pg : List Fifo.Entry) :
     Fifo.collect ⟨q.map (proj enc ackb), pg⟩ =
       (⟨(q2Acked q).1.map (proj enc ackb), pg⟩, (q2Acked q).2.map (proj enc ackb)) := by
   unfold Fifo.collect q2Acked
@@ -142,8 +142,8 @@ theorem sim_collect (q : List QEntry) (hq : States q) (pg : Option Fifo.Entry) :
 /-- One call: the FIFO specification's step on the projected queue is the list
 operation, output included. -/
 theorem sim_step (q : List QEntry) (hq : States q) (op : QOp) :
-    Fifo.step ⟨q.map (proj enc ackb), none⟩ (toOp enc ackb op) =
-      (⟨(qstep q op).1.map (proj enc ackb), none⟩, qout enc ackb (qstep q op).2 op) := by
+    Fifo.step ⟨q.map (proj enc ackb), []⟩ (toOp enc ackb op) =
+      (⟨(qstep q op).1.map (proj enc ackb), []⟩, qout enc ackb (qstep q op).2 op) := by
   cases op with
   | wait p =>
     simp only [toOp, Fifo.step, Fifo.regOpt, qstep, qout]
@@ -154,15 +154,16 @@ theorem sim_step (q : List QEntry) (hq : States q) (op : QOp) :
     simp only [toOp, Fifo.step, h6, ↓reduceIte, qstep, qout]
     rw [sim_ackId]
   | acked =>
-    simp only [toOp, Fifo.step, qstep, qout, Bool.false_eq_true, ↓reduceIte, List.nil_append]
+    simp only [toOp, Fifo.step, qstep, qout, Fifo.collectPings, List.dropWhile_nil, List.takeWhile_nil,
+      List.nil_append]
     rw [sim_collect enc ackb q hq]
 
 /-- Any history of calls: the FIFO specification run on the projected queue ends
 in the projection of the list run's queue and answers the projected releases. -/
 theorem sim_run (q : List QEntry) (hq : States q) (ops : List QOp) :
-    (Fifo.run ⟨q.map (proj enc ackb), none⟩ (ops.map (toOp enc ackb))).1 =
-      ⟨(qrun q ops).1.map (proj enc ackb), none⟩ ∧
-    (Fifo.run ⟨q.map (proj enc ackb), none⟩ (ops.map (toOp enc ackb))).2 =
+    (Fifo.run ⟨q.map (proj enc ackb), []⟩ (ops.map (toOp enc ackb))).1 =
+      ⟨(qrun q ops).1.map (proj enc ackb), []⟩ ∧
+    (Fifo.run ⟨q.map (proj enc ackb), []⟩ (ops.map (toOp enc ackb))).2 =
       (List.zip (qrun q ops).2 ops).map (fun x => qout enc ackb x.1 x.2) ∧
     States (qrun q ops).1 := by
   induction ops generalizing q with
